@@ -489,7 +489,23 @@ def accepted_corpus():
         BUF("WoBuf", 1, "WO"),
         REF("FooRef", "register", "Foo", address=3, reset_value=2),
     ]}
+    # several refs of ONE register that each override the reset value (one constructor per ref, in declaration order)
+    c["refs_many_reset_overrides"] = {"config": dict(U8LE), "objects": [
+        REG("Status", 0, 8, [F("v", "uint", 0, 8)], reset_value=1)] + [
+        REF("StatusPage%d" % k, "register", "Status", address=10 + k, reset_value=16 + k) for k in range(1, 8)] + [
+        BLK("Holder", [REF("Deep%d" % k, "register", "Status", address=k, reset_value=64 + k) for k in range(1, 4)], address_offset=64)]}
     c["empty"] = {"config": dict(U8LE), "objects": []}
+    # one set of raw names under different word-boundary configurations (they normalise differently in each)
+    for tag, nwb in (("default", None), ("underscore", ["Underscore"]), ("lowerupper", ["LowerUpper"]), ("digits", ["LowerDigit", "DigitLower"]),
+                     ("none", [])):
+        cfg = dict(U8LE)
+        if nwb is not None:
+            cfg["name_word_boundaries"] = nwb
+        c["names_" + tag] = {"config": cfg, "objects": [
+            REG("chipId", 0, 8, [F("revId", "uint", 0, 4), F("adc_2ch", "uint", 4, 8)]),
+            REG("adc_2ch", 1, 8, [F("my_Reg2a", "uint", 0, 8, enum={"name": "powerMode", "variants": [("lowPower", 0), ("full_on", "default")]})]),
+            BLK("subBlock_1", [REG("inner_reg", 0, 8, [F("v", "uint", 0, 8)])], address_offset=16),
+        ]}
     # two refs to the same *existing* target, and a ref whose target is defined later and deeper
     c["refs_shared_target"] = {"config": dict(U8LE), "objects": [
         REF("EarlyRef", "register", "Late", address=50),
